@@ -35,6 +35,10 @@ ASSUMPTIONS = [
     "stops on upper-lower < tolerance where 'upper' may stem from an earlier face, so the final direction is only first-order accurate)",
     "multi-contact manifolds (multiccd, box/mesh single shot): each contact must not be deeper than the geometry along its normal; "
     "the deepest is compared with the reference",
+    "known open findings (out/findings/C15-*.md) are classified by a geometric mechanism decided from the reference alone: centres "
+    "closer than ccd_tolerance; true distance within 2*ccd_tolerance of zero (or of the margin for contacts); penetrating cylinder cap "
+    "parallel to a flat face; and, for curved penetrating pairs whose depth IS inside the reference bracket, a returned direction that "
+    "breaks EPA's own stopping rule (rate-limited: more than 0.5% of the penetrating poses is a violation)",
     "contact positions are C13's subject; geom poses are read back from the engine",
 ]
 
@@ -212,7 +216,10 @@ def check_pose(P, S, obs, distmax, witness, final=True):
             sb = cx.sep(A, B, -vb / nb * (1 if gdB > 0 else -1))
             for nm, sv, g in (("ab", sa, gdA), ("ba", sb, gdB)):
                 if abs(sv - g) > tolN and not mech:
-                    viol("geomDistance-fromto-direction-does-not-realise-distance:%s" % pairname, order=nm, sep_along_fromto=sv, gd=g, tol=tol,
+                    pre = ""
+                    if g < 0 and not polytopes:
+                        pre = "ccd-epa-unconverged-face:"
+                    viol(pre + "geomDistance-fromto-direction-does-not-realise-distance:%s" % pairname, order=nm, sep_along_fromto=sv, gd=g, tol=tol,
                          fromto=(ftA if nm == "ab" else ftB))
             P.count("fromto_checked")
     # ---- mj_geomDistance against the reference
@@ -240,7 +247,12 @@ def check_pose(P, S, obs, distmax, witness, final=True):
     P.note_max("normal_realises_defect_over_tol", abs(s0 - d0) / tol)
     if abs(s0 - d0) > tolN:
         flipped = abs(cx.sep(A, B, -n0) - d0) <= tolN
-        viol(mech + "contact-normal-%s:%s:%s" % ("reversed" if flipped else "does-not-realise-reported-distance", regime, pairname), dist=d0, sep_along_normal=s0, normal=n0,
+        pre = mech
+        if not mech and d0 < 0 and not polytopes and lo - tol <= d0 <= hi + tol:
+            # EPA's own stopping rule is (overlap along the face normal) - depth < tolerance: a result that violates it by more than
+            # tolN while the depth itself is inside the reference bracket left EPA through a non-converged exit
+            pre = "ccd-epa-unconverged-face:"
+        viol(pre + "contact-normal-%s:%s:%s" % ("reversed" if flipped else "does-not-realise-reported-distance", regime, pairname), dist=d0, sep_along_normal=s0, normal=n0,
              ref_normal=ref["n"], ref_lower=lo, ref_upper=hi, tol=tol)
     e = abs(d0 - gdA)
     if d0 < distmax - tol and e > tol:
@@ -299,6 +311,8 @@ def run_case(c, P, poses=None):
             P.violation("engine-error-in-convex-collision:" + str(e).split(":")[0][:40], dict(witness, error=str(e)))
             S.d = S.m.make_data()
             continue
+        if any(sig.startswith("ccd-epa-unconverged-face:") for sig, _ in viols):
+            P.count("epa_unconverged_direction")
         for sig, det in viols:
             P.violation(sig, det)
         P.count("poses")
@@ -321,7 +335,7 @@ def worker(c):
 def cases(ctx):
     rng = ctx.rng
     nposes = 8
-    ncase = ctx.pick(200, 5000)
+    ncase = ctx.pick(160, 3000)
     return [make_case(rng, CCD_PAIRS[i % len(CCD_PAIRS)], i, nposes) for i in range(ncase)]
 
 
@@ -339,6 +353,10 @@ def run(ctx):
     ctx.extra["skipped_fraction"] = sk / n
     if sk > 0.02 * n and not ctx.violations:
         ctx.inconclusive("%d of %d poses skipped (iteration limit / uncertified reference) > 2%%" % (sk, n))
+    npen = sum(v for k, v in ctx.counters.items() if k.startswith("regime:pen"))
+    if ctx.counters.get("epa_unconverged_direction", 0) > 0.005 * max(npen, 200):
+        ctx.violation("ccd-epa-unconverged-face-rate-above-0.5-percent-of-penetrating-poses",
+                      {"count": ctx.counters.get("epa_unconverged_direction", 0), "penetrating_poses": npen})
     if ctx.counters.get("model_rejected", 0) > 0.02 * len(cs):
         ctx.inconclusive("too many generated models rejected (%d)" % ctx.counters.get("model_rejected", 0))
     ctx.min_nontrivial = ctx.pick(250, 1200)
